@@ -27,9 +27,9 @@ RULE = ("N-way shapes (N = 2..4, sizes 1..4, singleton modes, <= 48 cells) plus 
         "the ten real losses at a grid of rational points through an evaluator of the generated Gallina text; "
         "non-trivial = more than one cell and data and factors not all zero; distinct = distinct (op,args)")
 EXPLANATION = ("T1 theorems are stated over Gen/GenHandles.v, regenerated from pyttb/gcp/handles.py on this run. "
-               "R is not computable in Coq, so the numeric tie of the ten real handles is: the generated Gallina text is "
-               "parsed and evaluated by tools/props/c12_util.py (an evaluator independent of the translator) and compared at "
-               "1e-9 with pyttb's handles at the same points. fg.evaluate / fg_est.estimate / tensor.mttkrps are compared "
+               "Numeric tie of the ten real handles: decided in Coq — hnum_check (Proofs/C12HandleNum.v) encloses the GENERATED handle at the rational "
+               "point with the Interval library's verified evaluator and accepts pyttb's float only if |handle - value| <= 1e-9 * max(1, |value|) "
+               "is proved (C12_handles_numeric); the Python evaluator of the generated text (tools/props/c12_util.py) is kept as a second opinion. fg.evaluate / fg_est.estimate / tensor.mttkrps are compared "
                "exactly (integers) with the executable model Model/C12Gcp.v, about which T2 is proved; op evaluate demands the exact "
                "partial derivatives (weights[r] * MTTKRP column r, C12_gradient_weighted; mismatches on models with component weights "
                "are the known finding C12-W1), op evaluate_struct on the same weighted models checks the objective and 'all modes at once = "
@@ -52,8 +52,11 @@ CORRESPONDENCE_ONLY = ["fg_setup.setup: the executable acceptance check on concr
                        "byte-level mttkrps) is PROVED equal to eval_F / eval_G (C12_evaluate_bytes_F / _G; C12_objective itself only unfolds eval_F); what is "
                        "correspondence: that numpy pairs entries of equal subscript whatever the memory layouts of data / weights / handle results "
                        "(exercised with C / F / strided arrays), and that model.full() is the F-order list of the Kruskal denotation (ktensor.full: C01/C08)",
-                       "fg_est.estimate / estimate_helper: est_F / est_G are hand models on subscript rows (exact integer correspondence, every layout of "
-                       "the subscript array); theorems about them: C12_leave_one_out, C12_estimate_exact, C12_estimate_gradient, C12_lambda_*"]
+                       "fg_est.estimate / estimate_helper: the LINE-BY-LINE array-level transliteration (Proofs/C12EstLine.v: Uexp, the two Zexp passes, mvals, "
+                       "Y[crng] -= ..., csr_array(...).dot(Zexp[k])) is PROVED to compute the subscript-level models est_F / est_G (C12_estimate_helper_line, "
+                       "C12_estimate_F_line, C12_estimate_G_line); what is correspondence: that the transliteration is what numpy / scipy do (fancy row indexing, in-place "
+                       "Hadamard products, fancy-index subtraction with repeated indices, csr_array product) — exact integer comparison with pyttb, every layout of the "
+                       "subscript array; theorems about est_F / est_G: C12_leave_one_out, C12_estimate_exact, C12_estimate_gradient, C12_lambda_*"]
 ASSUMPTIONS = ["models have at least two modes (fg.evaluate and fg_est.estimate raise on 1-way models)",
                "real functions ln/exp/PI are the mathematical ones; EPS is the exact rational 1/10^10; IEEE rounding not modelled"]
 
